@@ -270,8 +270,16 @@ pub fn machinery_fail(msg: &str) -> ! {
 }
 
 fn load_findings(root: &std::path::Path, prop: &str) -> Vec<Finding> {
-	let path = root.join("known_findings.json");
-	let text = match std::fs::read_to_string(&path) {
+	let mut out = load_findings_file(&root.join("known_findings.json"), prop);
+	// development aid only (never set by registered commands): a scratch file with further entries
+	if let Some(extra) = std::env::var_os("VERIF_FINDINGS_EXTRA") {
+		out.extend(load_findings_file(std::path::Path::new(&extra), prop));
+	}
+	out
+}
+
+fn load_findings_file(path: &std::path::Path, prop: &str) -> Vec<Finding> {
+	let text = match std::fs::read_to_string(path) {
 		Ok(t) => t,
 		Err(_) => return Vec::new(),
 	};
